@@ -151,6 +151,37 @@ func c14Drain(e *Env) {
 		return true
 	})
 	if need == nil {
+		// the counting loop may live in a helper that receives the amount as a parameter
+		for _, hf := range withHelpers(w, sk, 1)[1:] {
+			hinfo := hf.Pkg.TypesInfo
+			hsig := hf.Obj.Type().(*types.Signature)
+			pi := -1
+			ast.Inspect(hf.Decl.Body, func(n ast.Node) bool {
+				if as, ok := n.(*ast.AssignStmt); ok && as.Tok == token.SUB_ASSIGN && len(as.Lhs) == 1 {
+					if v := usedVar(hinfo, as.Lhs[0]); v != nil {
+						for i := 0; i < hsig.Params().Len(); i++ {
+							if hsig.Params().At(i) == v {
+								pi = i
+							}
+						}
+					}
+				}
+				return true
+			})
+			if pi < 0 {
+				continue
+			}
+			ast.Inspect(sk.Decl.Body, func(n ast.Node) bool {
+				if c, ok := n.(*ast.CallExpr); ok && calleeOf(info, c) == hf.Obj && pi < len(c.Args) {
+					if v := usedVar(info, c.Args[pi]); v != nil && !v.IsField() {
+						need = v
+					}
+				}
+				return true
+			})
+		}
+	}
+	if need == nil {
 		r.Fail(rule, fname+":drain-counter", w.Pos(sk.Decl.Pos()), "the drain counts down the bytes still to skip", "no local decremented with -= in the drain")
 	} else {
 		// assignments need = …
@@ -164,7 +195,7 @@ func c14Drain(e *Env) {
 		par := parents(sk.Decl)
 		ast.Inspect(sk.Decl.Body, func(n ast.Node) bool {
 			as, ok := n.(*ast.AssignStmt)
-			if !ok || as.Tok != token.ASSIGN || len(as.Lhs) != 1 || usedVar(info, as.Lhs[0]) != need {
+			if !ok || (as.Tok != token.ASSIGN && as.Tok != token.DEFINE) || len(as.Lhs) != 1 || usedVar(info, as.Lhs[0]) != need {
 				return true
 			}
 			lf, ok := linEval(info, as.Rhs[0], nil)
@@ -242,6 +273,28 @@ func c14Drain(e *Env) {
 			}
 			if !past && linIs(a.lf, map[types.Object]int{cl: 1, pv: -1}, 0) {
 				okWithin = true
+			}
+		}
+		// default-then-override form: `need := contentLength − prefetchSize` unconditionally,
+		// then `if offset > prefetchSize { need = contentLength − offset }` (or the mirror image)
+		for _, a := range asgs {
+			if a.cond == nil {
+				continue
+			}
+			past, pv, ok := pastPrefetch(a.cond, a.then)
+			if !ok {
+				continue
+			}
+			for _, d := range asgs {
+				if d.cond != nil || d.pos >= a.pos {
+					continue
+				}
+				if past && linIs(a.lf, map[types.Object]int{cl: 1, off: -1}, 0) && linIs(d.lf, map[types.Object]int{cl: 1, pv: -1}, 0) {
+					okWithin = true
+				}
+				if !past && linIs(a.lf, map[types.Object]int{cl: 1, pv: -1}, 0) && linIs(d.lf, map[types.Object]int{cl: 1, off: -1}, 0) {
+					okPast = true
+				}
 			}
 		}
 		r.Check(okPast, rule, fname+":skip-past-prefetch", w.Pos(sk.Decl.Pos()), "after reading past the prefetched prefix the drain skips contentLength − offset", "no assignment `"+need.Name()+" = contentLength − offset` under `offset > prefetchSize`: bytes the handler already took from the wire are skipped again and the head of the next request is eaten")
